@@ -903,7 +903,7 @@ impl Property for C18 {
         v.push(("attributes_compared".into(), 50_000));
         v.push(("typed_spaces".into(), 500));
         v.push(("kyg:comma-in-text-column".into(), 50));
-        for a in ["SPACE-CONDITIONS", "SYSTEM-CONDITIONS", "ABSORPTANCE", "OVERHANG-A", "LEFT-FIN-A", "RIGHT-FIN-A", "COEFF"] {
+        for a in ["SPACE-CONDITIONS", "SYSTEM-CONDITIONS", "ABSORPTANCE", "OVERHANG-A", "LEFT-FIN-A", "RIGHT-FIN-A", "COEFF", "TILT"] {
             v.push((format!("legacy-absent:{}", a), 30));
         }
         v.push(("typed_walls".into(), 3000));
